@@ -221,6 +221,8 @@ theorem launched_toUDim (c : Int) (h1 : -9223372036854775808 ≤ c) (h2 : c < 92
 def Header.DimInRange (h : Header) : Prop :=
   -9223372036854775808 ≤ count h ∧ count h < 9223372036854775808
 
+instance (h : Header) : Decidable h.DimInRange := by unfold Header.DimInRange; exact inferInstance
+
 theorem launchIters_closed (h : Header) (hv : h.Valid) (hr : h.DimInRange) :
     launchIters h = (List.range (ceilN h.dist h.step)).map fun k => valueOf h (Int.ofNat k) := by
   unfold launchIters
